@@ -9,18 +9,25 @@ QUICK_N = 800
 THOROUGH_N = 12000
 SHARD = 100
 COQ_PRELUDE = "From MV Require Import Model.DnsLayer.\n"
-RULE = ("A case is a whole connection: transport (client TCP 55% / UDP, upstream almost always the same), upstream address present "
+RULE = ("85%: a case is a whole connection: transport (client TCP 55% / UDP, upstream almost always the same), upstream address present "
         "88%, a scenario of 1-9 operations over 6 ids x 4 names (new query, query re-using a pending or answered id with another "
         "name, matching reply, duplicate reply, unsolicited reply, reply with another question, malformed input: zero / short length "
         "prefix, garbage, trailing bytes, truncated frame; client / upstream close), an addon script (none / set response / clear "
         "response / set error, one per hook) and connect outcomes. Over TCP every run of frames in one direction is re-segmented "
         "(one event per frame, one event for the run, or 1-4 random cuts, also inside the length prefix); the case is run again with "
         "every run merged into one event for the segmentation clause. Thorough adds every 2-way split of four base streams and every "
-        "3-way split of a 2-query stream. Non-trivial = at least one hook fired; distinct by canonical JSON.")
+        "3-way split of a 2-query stream. 15%: end-to-end regular dns mode with the REAL DnsResolver addon (only the OS lookup is a fake "
+        "whose pending lookups complete in a generated order with generated outcomes): 2-4 client connections (UDP or TCP, one real "
+        "DNSLayer each), 2-6 A/AAAA queries with equal and different names/types/ids, 60% asking the same name+type, submitted before, "
+        "between and after completions. Non-trivial = at least one hook fired; distinct by canonical JSON.")
 TRUSTED = ["Coq 8.16.1 kernel (coqc); vm_compute for case evaluation",
            "harness/props/C27.py (generator, driver glue, reference de-framer/parser of the oracle), harness/lib/sansio.py",
            "DNSMessage.unpack / packed are abstract in the model: theorems quantify over every unpack function; the correspondence run "
            "uses the table of results of the real DNSMessage.unpack (its correctness is C25/C26)",
+           "end-to-end cases: asyncio glue of the harness replaces ProxyConnectionHandler.server_event/hook_task; mitmproxy_rs lookups "
+           "replaced by a fake resolver; the resolver step is modelled as AResolve (response built from the request of the flow), its "
+           "observed rcode / answer records are inputs of the model; each connection is compared with its own model run "
+           "(C27_concurrent_clients_independent)",
            "hooks and OpenConnection answered synchronously (atomic event handling while a hook is pending is the layer core, C04)",
            "hand model of DNSLayer and DNSMessage.fail, tied by exact comparison of the command trace (hooks with the flow's "
            "request/response/error, opens, sent bytes, closes, crash) and of the final live flags"]
@@ -225,8 +232,27 @@ def gen(rng, n, tier):
         out += _splits(_frame(q2) + _frame(q2[:7]) + _frame(q2), None, 2)
         out += _splits(_frame(q2) + _frame(mk_query(3, b"x")), mk_resp(3, b"x"), 3)
     for _ in range(n):
-        out.append(_one(rng))
+        out.append(_res_case(rng) if rng.chance(0.15) else _one(rng))
     return out
+
+
+def _res_case(rng):
+    """regular dns mode end to end: 2-4 client connections, the REAL DnsResolver addon, a fake OS resolver whose lookups
+    complete in a generated order"""
+    ncl = rng.randint(2, 4)
+    qs = []
+    shared = (rng.randint(0, 2), rng.choice([1, 28]))
+    for _ in range(rng.randint(2, 6)):
+        name, qtype = shared if rng.chance(0.6) else (rng.randint(0, 2), rng.choice([1, 28]))
+        qs.append(["q", rng.below(ncl), rng.choice([1, 2, 0x1234, 0xFFFF]) if rng.chance(0.7) else rng.randint(0, 65535),
+                   name, qtype, rng.chance(0.8)])
+    dones = [["done", rng.randint(0, 5)] for _ in range(len(qs) + 1)]
+    if rng.chance(0.65):
+        steps = qs + dones
+    else:
+        steps = rng.shuffle(qs + dones)
+    outcomes = [rng.weighted([(6, ["ok", rng.randint(0, 2)]), (1, ["nx"]), (1, ["nodata"]), (1, ["fail"])]) for _ in range(4)]
+    return {"k": "res", "tcp": rng.chance(0.4), "nclients": ncl, "steps": steps, "outcomes": outcomes}
 
 
 # ---------------------------------------------------------------- implementation runner
@@ -412,7 +438,195 @@ def _bad_frames(case, events):
     return sorted(set(bad))
 
 
+NAMES_E2E = ["shared.example.com", "a.example", "x"]
+
+
+async def _res_main(case):
+    import asyncio, socket
+    from mitmproxy.addons import dns_resolver
+    from mitmproxy.connection import Client, ConnectionState
+    from mitmproxy.proxy import commands, context, events
+    from mitmproxy.proxy.mode_specs import ProxyMode
+    from mitmproxy.test import taddons
+    pool, pool_ix, table = [], {}, []
+
+    def ix(msg):
+        if msg is None:
+            return None
+        r = _rec(msg)
+        if r not in pool_ix:
+            pool_ix[r] = len(pool)
+            pool.append(r)
+        return pool_ix[r]
+
+    orig = mdns.DNSMessage.unpack.__func__
+
+    def rec_unpack(cls, buffer, timestamp=None):
+        key = hx(bytes(buffer))
+        try:
+            m = orig(cls, buffer, timestamp)
+        except struct.error:
+            table.append([key, "S"])
+            raise
+        except Exception:
+            table.append([key, "O"])
+            raise
+        table.append([key, ix(m)])
+        return m
+
+    loop = asyncio.get_running_loop()
+
+    class Fake:
+        def __init__(self):
+            self.pending = []
+            self.made = 0
+
+        async def _lk(self, name):
+            fut = loop.create_future()
+            self.pending.append((fut, self.made))
+            self.made += 1
+            return await fut
+
+        lookup_ipv4 = lookup_ipv6 = lookup_ip = _lk
+
+    fake = Fake()
+    dr = dns_resolver.DnsResolver()
+
+    async def settle():
+        for _ in range(12):
+            await asyncio.sleep(0)
+
+    class Conn:
+        def __init__(self, i, opts):
+            self.client = Client(peername=("127.0.0.1", 40000 + i), sockname=("127.0.0.1", 53),
+                                 transport_protocol="tcp" if case["tcp"] else "udp", proxy_mode=ProxyMode.parse("dns"),
+                                 state=ConnectionState.OPEN, timestamp_start=0)
+            self.layer = dnslayer.DNSLayer(context.Context(self.client, opts))
+            self.trace, self.events, self.timeline, self.script, self.flows = [], [], [], [], []
+            self.q, self.busy, self.crashed = [], False, False
+            self.feed(events.Start())
+
+        def ford(self, f):
+            for k, g in enumerate(self.flows):
+                if g is f:
+                    return k
+            self.flows.append(f)
+            return len(self.flows) - 1
+
+        def feed(self, ev):
+            self.q.append(ev)
+            if self.busy or self.crashed:
+                return
+            self.busy = True
+            try:
+                while self.q and not self.crashed:
+                    e = self.q.pop(0)
+                    try:
+                        cmds = list(self.layer.handle_event(e))
+                    except Exception as exc:
+                        self.crashed = True
+                        self.trace.append(["crash", type(exc).__name__])
+                        break
+                    for c in cmds:
+                        self.execute(c)
+            finally:
+                self.busy = False
+
+        def execute(self, c):
+            if isinstance(c, commands.SendData):
+                to_client = c.connection is self.client
+                self.trace.append(["send", 0 if to_client else 1, hx(bytes(c.data))])
+                if to_client:
+                    self.timeline.append(["r", hx(bytes(c.data))])
+            elif isinstance(c, commands.StartHook):
+                f = c.flow
+                self.trace.append(["hook", c.name, self.ford(f), ix(getattr(f, "request", None)), ix(f.response), f.error is not None])
+                asyncio.ensure_future(self.hook_task(c))
+            elif isinstance(c, commands.OpenConnection):
+                self.trace.append(["open"])
+                self.q.append(events.OpenConnectionCompleted(c, "connection refused"))
+            elif isinstance(c, commands.CloseConnection):
+                self.trace.append(["close", 0 if c.connection is self.client else 1])
+            elif isinstance(c, commands.Log):
+                pass
+            else:
+                self.trace.append(["weird", type(c).__name__])
+
+        async def hook_task(self, c):
+            f = c.flow
+            act = ["none"]
+            if c.name == "dns_request":
+                had_resp, had_err = f.response is not None, f.error is not None
+                try:
+                    await dr.dns_request(f)
+                except Exception as exc:
+                    self.crashed = True
+                    self.trace.append(["crash", type(exc).__name__])
+                    return
+                if f.response is not None and not had_resp:
+                    r = f.response
+                    try:
+                        qsb = b"".join(domain_names.pack(q.name) + struct.pack("!HH", q.type, q.class_) for q in r.questions)
+                        an = r.packed[12 + len(qsb):]
+                    except Exception:
+                        raise _Unpackable()
+                    act = ["resolve", r.response_code, len(r.answers), hx(an)]
+                elif f.error is not None and not had_err:
+                    act = ["err"]
+            self.script.append(act)
+            self.feed(events.HookCompleted(c))
+
+    def complete(idx):
+        fut, no = fake.pending.pop(idx % len(fake.pending))
+        oc = case["outcomes"][no % len(case["outcomes"])]
+        if oc[0] == "ok":
+            fut.set_result(["192.0.2.%d" % (k + 1) for k in range(oc[1])])
+        elif oc[0] == "nx":
+            fut.set_exception(socket.gaierror(socket.EAI_NONAME, "nx"))
+        elif oc[0] == "nodata":
+            fut.set_exception(socket.gaierror(socket.EAI_NODATA, "nodata"))
+        else:
+            fut.set_exception(socket.gaierror(socket.EAI_FAIL, "fail"))
+
+    mdns.DNSMessage.unpack = classmethod(rec_unpack)
+    try:
+        with taddons.context(dr) as tctx:
+            tctx.options.dns_name_servers = ["192.0.2.53"]
+            dr.resolver = lambda: fake
+            conns = [Conn(i, tctx.options) for i in range(case["nclients"])]
+            for st in case["steps"]:
+                if st[0] == "q":
+                    cn = conns[st[1]]
+                    wire = mk_query(st[2], NAMES_E2E[st[3]].encode(), st[4], st[5])
+                    if st[4] == 28:
+                        pass
+                    data = _frame(wire) if case["tcp"] else wire
+                    cn.timeline.append(["q", hx(wire)])
+                    cn.events.append(["c", hx(data)])
+                    cn.feed(events.DataReceived(cn.client, data))
+                elif fake.pending:
+                    complete(st[1])
+                await settle()
+            guard = 0
+            while fake.pending and guard < 50:
+                complete(0)
+                await settle()
+                guard += 1
+            await settle()
+    finally:
+        mdns.DNSMessage.unpack = classmethod(orig)
+    return {"pool": [list(r) for r in pool], "table": table, "fix": FIX,
+            "clients": [{"events": c.events, "trace": c.trace, "script": c.script, "timeline": c.timeline,
+                         "lives": [[k, bool(f.live)] for k, f in enumerate(c.flows)]} for c in conns]}
+
+
 def run_impl(case):
+    if case.get("k") == "res":
+        import asyncio
+        try:
+            return asyncio.run(_res_main(case))
+        except _Unpackable:
+            return {"skip": "unpackable"}
     try:
         obs = _drive(case, None)
         obs["fix"] = FIX
@@ -437,9 +651,52 @@ def _cmsg(r):
 _HK = {"dns_request": "HReq", "dns_response": "HResp", "dns_error": "HErr"}
 
 
+def _ctable(obs):
+    tb = []
+    for k, r in obs["table"]:
+        tr = "TStruct" if r == "S" else "TOther" if r == "O" else f"(TOk {cnat(r)})"
+        tb.append(f"({cbytes(unhx(k))}, {tr})")
+    return clist(tb, "(bytes * tres)")
+
+
+def _cact(a):
+    if a[0] == "resolve":
+        return f"(IResolve {cN(a[1])} {cN(a[2])} {cbytes(unhx(a[3]))})"
+    return {"none": "INone", "clear": "IClearResp", "err": "ISetErr"}.get(a[0]) or f"(ISetResp {cnat(a[1])})"
+
+
+def _coq_res(case, obs):
+    fix = obs["fix"]
+    cfg = f"(mkCfg {cbool(case['tcp'])} {cbool(case['tcp'])} false {cbool(fix[0])} {cbool(fix[1])})"
+    pool = clist((_cmsg(r) for r in obs["pool"]), "message")
+    table = _ctable(obs)
+    on = lambda v: copt(v, cnat, "nat")
+    ls = []
+    for c in obs["clients"]:
+        sc = clist((_cact(a) for a in c["script"]), "iact")
+        events = clist((f"(EData true {cbytes(unhx(e[1]))})" for e in c["events"]), "event")
+        tr = []
+        for t in c["trace"]:
+            if t[0] == "hook":
+                tr.append(f"(IHook {_HK[t[1]]} {cnat(t[2])} {on(t[3])} {on(t[4])} {cbool(t[5])})")
+            elif t[0] == "open":
+                tr.append("IOpen")
+            elif t[0] == "send":
+                tr.append(f"(ISend {cbool(t[1] == 0)} {cbytes(unhx(t[2]))})")
+            elif t[0] == "close":
+                tr.append(f"(IClose {cbool(t[1] == 0)})")
+            else:
+                tr.append("ICrash")
+        lives = clist((f"({cnat(i)}, {cbool(b)})" for i, b in c["lives"]), "(nat * bool)")
+        ls.append(f"(mkCase {cfg} {pool} {table} {sc} (@nil bool) {events} {clist(tr, 'iout')} {lives})")
+    return f"Many {clist(ls, 'lcase')}"
+
+
 def coq_case(case, obs):
     if obs.get("skip"):
         return None
+    if case.get("k") == "res":
+        return _coq_res(case, obs)
     fix = obs["fix"]
     cfg = f"(mkCfg {cbool(case['ctcp'])} {cbool(case['stcp'])} {cbool(case['addr'])} {cbool(fix[0])} {cbool(fix[1])})"
     pool = clist((_cmsg(r) for r in obs["pool"]), "message")
@@ -448,8 +705,7 @@ def coq_case(case, obs):
         tr = "TStruct" if r == "S" else "TOther" if r == "O" else f"(TOk {cnat(r)})"
         tb.append(f"({cbytes(unhx(k))}, {tr})")
     table = clist(tb, "(bytes * tres)")
-    sc = clist(({"none": "INone", "clear": "IClearResp", "err": "ISetErr"}.get(a[0]) or f"(ISetResp {cnat(a[1])})"
-                for a in obs["script"]), "iact")
+    sc = clist((_cact(a) for a in obs["script"]), "iact")
     conn = clist((cbool(b) for b in case["conn"]), "bool")
     evs = []
     for e in obs["events"]:
@@ -473,7 +729,7 @@ def coq_case(case, obs):
             tr.append("ICrash")
     trace = clist(tr, "iout")
     lives = clist((f"({cnat(i)}, {cbool(b)})" for i, b in obs["lives"]), "(nat * bool)")
-    return f"mkCase {cfg} {pool} {table} {sc} {conn} {events} {trace} {lives}"
+    return f"One (mkCase {cfg} {pool} {table} {sc} {conn} {events} {trace} {lives})"
 
 
 # ---------------------------------------------------------------- oracle (no model, no mitmproxy parser)
@@ -514,9 +770,55 @@ def _ref_frames(buf):
     return frames, buf, False
 
 
+def _oracle_res(case, obs):
+    """every reply a client connection receives carries the id and the question section of a query THAT connection sent and
+    that is not answered yet; every query is answered once all lookups have completed"""
+    v, seen = [], set()
+
+    def add(key, what):
+        if key not in seen:
+            seen.add(key)
+            v.append({"key": key, "what": what})
+
+    for i, c in enumerate(obs["clients"]):
+        outstanding = []
+        for t in c["timeline"]:
+            w = unhx(t[1])
+            if t[0] == "q":
+                p = ref_parse(w)
+                outstanding.append((p["id"], p["qs"]))
+                continue
+            if case["tcp"]:
+                if len(w) < 2 or ((w[0] << 8) | w[1]) != len(w) - 2:
+                    add("reply-misframed", f"connection {i}: bytes sent to the TCP client are not one length-prefixed message")
+                    continue
+                w = w[2:]
+            p = ref_parse(w)
+            if p is None or not (p["flags"] & 0x8000):
+                add("reply-unparseable", f"connection {i}: what was sent to the client is not a DNS response")
+                continue
+            if (p["id"], p["qs"]) in outstanding:
+                outstanding.remove((p["id"], p["qs"]))
+            else:
+                add("reply-for-other-query",
+                    f"connection {i} received a reply with id {p['id']} question {hx(p['qs'])}; its unanswered queries are "
+                    f"{[(a, hx(b)) for a, b in outstanding]}")
+        crashed = any(t[0] == "crash" for t in c["trace"])
+        if crashed:
+            add("layer-crash", f"connection {i}: an exception escaped the layer or the resolver addon")
+        elif outstanding:
+            add("query-unanswered", f"connection {i}: queries {[(a, hx(b)) for a, b in outstanding]} got no reply although every "
+                                    f"lookup has completed")
+        if any(t[0] == "weird" for t in c["trace"]):
+            add("unexpected-command", f"connection {i}")
+    return v
+
+
 def oracle(case, obs):
     if obs.get("skip"):
         return []
+    if case.get("k") == "res":
+        return _oracle_res(case, obs)
     v, seen = [], set()
 
     def add(key, what):
@@ -659,12 +961,29 @@ def oracle(case, obs):
 
 
 def nontrivial(case, obs):
-    return not obs.get("skip") and any(t[1] == "hook" for t in obs["trace"])
+    if obs.get("skip"):
+        return False
+    if case.get("k") == "res":
+        return any(t[0] == "hook" for c in obs["clients"] for t in c["trace"])
+    return any(t[1] == "hook" for t in obs["trace"])
 
 
 def classify(case, obs):
     if obs.get("skip"):
         return ["skip:" + obs["skip"]]
+    if case.get("k") == "res":
+        tags = ["e2e-resolver", "e2e-tcp" if case["tcp"] else "e2e-udp", f"e2e-clients:{case['nclients']}"]
+        qs = [s for s in case["steps"] if s[0] == "q"]
+        if len({(s[1], s[3], s[4]) for s in qs}) > len({(s[3], s[4]) for s in qs}):
+            tags.append("e2e-same-name-type-from-two-clients")
+        if len({s[2] for s in qs}) < len(qs):
+            tags.append("e2e-equal-ids")
+        acts = [a[0] for c in obs["clients"] for a in c["script"]]
+        if "resolve" in acts:
+            tags.append("e2e-resolved")
+        if any(a[0] == "resolve" and a[1] != 0 for c in obs["clients"] for a in c["script"]):
+            tags.append("e2e-error-rcode")
+        return tags
     tags = ["tcp" if case["ctcp"] else "udp", f"fix={int(obs['fix'][0])}{int(obs['fix'][1])}"]
     if case["ctcp"] != case["stcp"]:
         tags.append("mixed-transport")
